@@ -201,7 +201,7 @@ def run(rep: Report, prog: Program, tier: str) -> None:
                     c._acked = True
                 sacked = (base_tsn - 1 + nacked) % (1 << 32)
                 me = SimpleNamespace(__cls__=ci, _sent_queue=sentq, _outbound_queue=outq, _last_sacked_tsn=sacked, _advanced_peer_ack_tsn=sacked,
-                                     _forward_tsn_chunk=None, _forward_tsn_pending=None, _forward_tsn_streams={}, delivered=[])
+                                     _forward_tsn_chunk=None, _forward_tsn_pending=None, _forward_tsn_streams={}, _flight_size=0, delivered=[])
                 label = (f"{nfrag} fragment(s), {nsent} sent, trigger #{trig}, {'unordered' if unordered else 'ordered'}, {'reliable prefix outstanding' if prefix else 'at the head'}"
                          + (f", first {nacked} fragment(s) already acknowledged" if nacked else "") + (", next reliable chunk gap-acked" if follow_acked else ""))
                 try:
@@ -244,7 +244,7 @@ def run(rep: Report, prog: Program, tier: str) -> None:
     # a reliable chunk and a chunk within its limits are never abandoned
     for pol, cnt, want in ((None, 5, False), (3, 3, False), (3, 4, True), (0, 1, True)):
         c = chunk(7, 1, 0, FIRST | LAST, b"x", pol, cnt)
-        me = SimpleNamespace(__cls__=ci, _sent_queue=deque([c]), _outbound_queue=deque(), _forward_tsn_chunk=None, delivered=[])
+        me = SimpleNamespace(__cls__=ci, _sent_queue=deque([c]), _outbound_queue=deque(), _forward_tsn_chunk=None, _flight_size=0, delivered=[])
         try:
             r = hook.run_method(ma, me, [c], {})
         except (Raised, Unknown) as ex:
@@ -264,7 +264,7 @@ def run(rep: Report, prog: Program, tier: str) -> None:
         target = message(100, 5, 9, nfrag, unordered, 0, "m", nfrag)
         follow = message(100 + nfrag, 5, 10, 1, unordered, 0, "f", 1)
         me = SimpleNamespace(__cls__=ci, _sent_queue=deque(target + follow), _outbound_queue=deque(), _last_sacked_tsn=99, _advanced_peer_ack_tsn=99,
-                             _forward_tsn_chunk=None, _forward_tsn_pending=None, _forward_tsn_streams={}, delivered=[])
+                             _forward_tsn_chunk=None, _forward_tsn_pending=None, _forward_tsn_streams={}, _flight_size=0, delivered=[])
         try:
             hook.run_method(ma, me, [target[0]], {})
             hook.run_method(up, me, [], {})
